@@ -156,6 +156,7 @@ type World struct {
 	Has6          bool
 	UseConfigFile bool
 	WaitReturned  []int // incarnations whose Servers.Wait returned
+	unservedV6    bool  // protocol of the listener named by the last listener-not-served/opened finding
 	ConfigText    string
 	Ifaces        []simrt.Iface
 	LSpecs        []ListenerSpec
@@ -204,10 +205,11 @@ func (w *World) Violate(prop, class, format string, a ...interface{}) {
 		f = report.Finding{Property: "C13", Class: "handler-list/" + class, Detail: "configuration: " + w.describeChains() + "\n" + f.Detail}
 		prop = "C13"
 	}
-	if w.O.Prop == "C13" && prop == "C01" && class == "listener-not-served" {
-		// C13: for every request the handlers are invoked in order (every listener of a protocol serves the same chain)
-		f = report.Finding{Property: "C13", Class: "request-never-dispatched", Detail: f.Detail}
-		prop = "C13"
+	if (w.O.Prop == "C13" || w.O.Prop == "C12" && w.unservedV6) && prop == "C01" && (class == "listener-not-served" || class == "listener-not-opened") {
+		// C13: for every request the handlers are invoked in order (every listener of a protocol serves the same chain,
+		// an empty chain still sends the skeleton reply); C12: every supported client message is answered
+		f = report.Finding{Property: w.O.Prop, Class: "request-never-dispatched/" + class, Detail: f.Detail}
+		prop = w.O.Prop
 	}
 	if w.O.Prop == "C19" && prop == "C01" {
 		// C19: a configuration accepted at start-up (or being set up) must not take the server down
@@ -513,6 +515,15 @@ func (w *World) drainUserLog() {
 					w.LSpecs = sr.LSpecs
 				}
 				w.bindPorts()
+				if sr.Started {
+					for i, ls := range w.LSpecs {
+						if w.ports[i] < 0 && (w.UseConfigFile || ls.V6 && w.Has6 || !ls.V6 && w.Has4) {
+							w.unservedV6 = ls.V6
+							w.Violate("C01", "listener-not-opened", "Start reported success but no socket is bound for the configured listener %d %+v (%v): requests sent there are never handled", i, ls, func() string { a := w.listenAddr(ls); return a.String() }())
+							break
+						}
+					}
+				}
 			}
 			continue
 		}
@@ -842,6 +853,7 @@ func (w *World) afterRun(rr simrt.RunResult) {
 				continue // the socket was closed (injected fault) before the datagram was read: lost, legitimately
 			}
 			if queued {
+				w.unservedV6 = dg.V6
 				w.Violate("C01", "listener-not-served", "dg%d (%s) was delivered to listener %d %+v at t=%.3fs and is still queued on its socket with the server idle: no receive loop reads that socket", dg.ID, dg.Kind, dg.L, w.LSpecs[dg.L], float64(dg.DeliveredAt)/1e9)
 			} else {
 				w.Violate("C01", "handler-never-returns", "dg%d (%s) was read by the server but its handling never finished, and nothing is left to run", dg.ID, dg.Kind)
